@@ -227,6 +227,57 @@ fn view_ops(ops: &Option<ProofOps>) -> String {
     }
 }
 
+/// The verdicts of the REAL `ics23::verify_membership` on every query the chain check can make for
+/// this answer: operation `i` with key `i`, every root the next operation commits to (the trusted
+/// root for the last one), every leaf (the given leaf for the first operation, otherwise every
+/// value operation `i` itself commits to).  `i:root:key:leaf:0|1`, comma separated.
+fn vm_table(ops: &Option<ProofOps>, keys: &[Vec<u8>], leaf: &[u8], root: &[u8]) -> String {
+    let Some(ops) = ops else { return "-".into() };
+    let decoded: Vec<Option<(ics23::ProofSpec, CommitmentProof)>> = ops
+        .ops
+        .iter()
+        .map(|op| {
+            let spec = match op.r#type.as_str() {
+                "ics23:iavl" => ics23::iavl_spec(),
+                "ics23:simple" => ics23::tendermint_spec(),
+                _ => return None,
+            };
+            CommitmentProof::decode(op.data.as_slice()).ok().map(|cp| (spec, cp))
+        })
+        .collect();
+    let cands = |i: usize| -> Vec<Vec<u8>> {
+        match decoded.get(i).and_then(|d| d.as_ref()).and_then(|(_, cp)| cp.proof.as_ref()) {
+            Some(Proof::Exist(ep)) => vec![ep.value.clone()],
+            Some(Proof::Batch(b)) => b
+                .entries
+                .iter()
+                .filter_map(|e| match &e.proof {
+                    Some(ics23::batch_entry::Proof::Exist(ep)) => Some(ep.value.clone()),
+                    _ => None,
+                })
+                .collect(),
+            _ => vec![],
+        }
+    };
+    let n = decoded.len();
+    let mut out: Vec<String> = vec![];
+    for i in 0..n {
+        let (Some((spec, cp)), Some(key)) = (&decoded[i], keys.get(i)) else { continue };
+        let roots = if i + 1 < n { cands(i + 1) } else { vec![root.to_vec()] };
+        let leaves = if i == 0 { vec![leaf.to_vec()] } else { cands(i) };
+        for r in &roots {
+            for l in &leaves {
+                let b = ics23::verify_membership::<H>(cp, spec, r, key, l);
+                let e = format!("{i}:{}:{}:{}:{}", hx(r), hx(key), hx(l), b as u8);
+                if !out.contains(&e) {
+                    out.push(e);
+                }
+            }
+        }
+    }
+    if out.is_empty() { "-".into() } else { out.join(",") }
+}
+
 // ---------------------------------------------------------------- scenario generation
 
 struct Honest {
@@ -302,12 +353,13 @@ fn batch(entries: Vec<Option<ExistenceProof>>) -> CommitmentProof {
 
 fn balance_line(addr: &[u8; 20], hh: u64, app_hash: &[u8], call: &str, resp: &RawResp) -> String {
     format!(
-        "balance addr={} hh={hh} apphash={} call={call} code={} value={} ops={} raw={}",
+        "balance addr={} hh={hh} apphash={} call={call} code={} value={} ops={} vq={} raw={}",
         hx(addr),
         hx(app_hash),
         resp.code,
         hx(&resp.value),
         view_ops(&resp.proof_ops),
+        vm_table(&resp.proof_ops, &[bank_key(addr), b"bank".to_vec()], &resp.value, app_hash),
         hx(&resp.encode_to_vec())
     )
 }
@@ -641,7 +693,15 @@ impl C45 {
         };
         let po = ProofOps { ops };
         out.op(
-            format!("verify root={} keys={} leaf={} ops={} raw={}", hx(&root), hxl(&ks), hx(&lf), view_ops(&Some(po.clone())), hx(&po.encode_to_vec())),
+            format!(
+                "verify root={} keys={} leaf={} ops={} vq={} raw={}",
+                hx(&root),
+                hxl(&ks),
+                hx(&lf),
+                view_ops(&Some(po.clone())),
+                vm_table(&Some(po.clone()), &ks, &lf, &root),
+                hx(&po.encode_to_vec())
+            ),
             &format!("verify/{tag}"),
             true,
         );
@@ -702,6 +762,7 @@ impl Prop for C45 {
                 let Ok(resp) = RawResp::decode(raw.as_slice()) else { return "bad-op".into() };
                 // the abstract fields of the line must describe the raw response
                 if arg(line, "ops") != Some(view_ops(&resp.proof_ops).as_str())
+                    || arg(line, "vq") != Some(vm_table(&resp.proof_ops, &[bank_key(&addr20), b"bank".to_vec()], &resp.value, &app_hash).as_str())
                     || arg_hex(line, "value").as_deref() != Some(resp.value.as_slice())
                     || arg_u64(line, "code") != Some(resp.code as u64)
                 {
@@ -744,7 +805,9 @@ impl Prop for C45 {
                     return "bad-op".into();
                 };
                 let Ok(po) = ProofOps::decode(raw.as_slice()) else { return "bad-op".into() };
-                if arg(line, "ops") != Some(view_ops(&Some(po.clone())).as_str()) {
+                if arg(line, "ops") != Some(view_ops(&Some(po.clone())).as_str())
+                    || arg(line, "vq") != Some(vm_table(&Some(po.clone()), &keys, &leaf, &root).as_str())
+                {
                     return "view-mismatch".into();
                 }
                 match ProofChain::try_from(po) {
